@@ -17,6 +17,7 @@ import os
 import random
 import re
 import sys
+import time
 
 sys.path.insert(0, os.path.dirname(os.path.abspath(__file__)))
 from common import *  # noqa
@@ -88,6 +89,22 @@ def one_route_project(name, m, ctrl="PCtl", enforce=False):
                              "methods": [m]}]}
 
 
+def two_package_project():
+    """Two controllers in two packages whose routes use package-LOCAL types of the same name (ctl.Dto /
+    ctlb.Dto, ctl.Tag / ctlb.Tag) through parameters of the same name, each being the first new type its
+    controller mentions: the only thing that keeps `Param<serial>body "…/ctl"` and `Param<serial>body "…/ctlb"`
+    apart is the serial."""
+    def ctl(name, pkg, k):
+        return {"name": name, "pkg": pkg, "tag": "T", "route": "/" + name.lower(), "security": [], "descr": "",
+                "methods": [meth("Create%d" % k, "POST", "/c", [prm("body", "body", "Dto", validator="required")], "Dto"),
+                            meth("Find%d" % k, "GET", "/f/{v}", [prm("v", "path", "Tag"), prm("w", "query", "Tag", pointer=True)],
+                                 "*Dto"),
+                            meth("Plain%d" % k, "GET", "/p", [prm("n", "query", "int")], "string")]}
+    return {"config": cfg(), "types": ["Item"],
+            "controllers": [ctl("OrdersCtl", "ctl", 0), ctl("UsersCtl", "ctlb", 1), ctl("AuditCtl", "ctl", 2),
+                            ctl("BillingCtl", "ctlb", 3)]}
+
+
 def deliberate_projects():
     """(label, project, expectation) - expectation 'reject' means gleece must refuse the project."""
     out = []
@@ -96,6 +113,7 @@ def deliberate_projects():
     out.append(("enforce-unsecured", one_route_project(
         "enforce-unsecured", meth("M0", "GET", "/a", [], "string"), enforce=True), "reject"))
     out.append(("bad-verb", one_route_project("bad-verb", meth("M0", "FETCH", "/a", [], "string")), "reject"))
+    out.append(("two-packages-same-names", two_package_project(), None))
     out.append(("controller-named-RequestAuth", one_route_project(
         "controller-named-RequestAuth", meth("M0", "GET", "/a", [prm("k", "query", "ItemKind")], "string"),
         ctrl="RequestAuth"), None))
@@ -116,15 +134,31 @@ def mutate_types(rng, p):
                         x["validator"] = None
             if m["ret"] == "string" and rng.random() < 0.3:
                 m["ret"] = "ItemKind"
+    # package-local types (ctl.Dto / ctlb.Dto ...): types of different packages under one parameter name
+    for c in p["controllers"]:
+        for m in c["methods"]:
+            for x in m["params"]:
+                if x["ctx"]:
+                    continue
+                if x["loc"] == "body" and rng.random() < 0.5:
+                    x["type"] = "Dto"
+                elif x["loc"] != "body" and x["type"] in ("string", "ItemId") and rng.random() < 0.3:
+                    x["type"] = "Tag"
+                    if x["validator"] not in (None, "required"):
+                        x["validator"] = None
+            if m["ret"] in ("Item", "*Item") and rng.random() < 0.4:
+                m["ret"] = m["ret"].replace("Item", "Dto")
     return p
 
 
 # ------------------------------------------------------------------ model input
 
-def type_pkg(t, modpath):
+def type_pkg(t, modpath, ctrl_pkg):
     base = t.lstrip("*[]")
-    if base in ("Item", "ItemKind", "ItemId"):
+    if base in ("Item", "ItemKind", "ItemId") or base in P.ENUMS:
         return modpath + "/types"
+    if base in servers.LOCAL_TYPES:
+        return modpath + "/" + ctrl_pkg      # declared in the controller's own package
     if base == "context.Context":
         return "context"
     return ""
@@ -140,10 +174,10 @@ def model_controllers(p, modpath):
             for x in m["params"]:
                 if x["ctx"]:
                     continue     # context parameters are passed as getRequestContext(...): no alias is referenced
-                params.append((x["name"], x["type"].lstrip("*[]"), type_pkg(x["type"], modpath)))
+                params.append((x["name"], x["type"].lstrip("*[]"), type_pkg(x["type"], modpath, c["pkg"])))
             resps = []
             if m["ret"]:
-                resps.append((m["ret"].lstrip("*"), type_pkg(m["ret"], modpath), m["ret"].startswith("*")))
+                resps.append((m["ret"].lstrip("*"), type_pkg(m["ret"], modpath, c["pkg"]), m["ret"].startswith("*")))
             resps.append(("error", "", False))
             routes.append((params, resps))
         out.append((c["name"], modpath + "/" + c["pkg"], routes))
@@ -348,6 +382,117 @@ def shrink_failing(c):
         return c["project"]
 
 
+# ------------------------------------------------------------------ in-process double generation
+
+MARK_OVERRIDE = "verifOverrideMarker()"
+MARK_EXTENSION = "verifExtensionMarker()"
+
+
+def override_template(engine):
+    """The built-in Routes template of the engine with one extra call at the top of RegisterRoutes."""
+    src = open(os.path.join(REPO, "generator", "templates", engine, "routes.hbs"), encoding="utf-8").read()
+    m = re.search(r"^func RegisterRoutes\(.*\{[ \t]*$", src, re.M)
+    if not m:
+        raise RuntimeError("cannot find RegisterRoutes in the %s routes template" % engine)
+    return src[:m.end()] + "\n\t" + MARK_OVERRIDE + "\n" + src[m.end():]
+
+
+def inprocess_leg(res, tier):
+    """Two projects x five engines generated (a) by one fresh CLI process each (build_servers, which also
+    compiles them) and (b) by ONE process running the jobs back to back (implrun genroutes).  Project A
+    replaces the main Routes template and adds a template extension, project B is plain.  Every file of
+    (b) must be byte-identical to the file of (a) for the same job."""
+    proj_a = one_route_project("template-override", meth("M0", "GET", "/a/{k}", [prm("k", "path", "ItemKind"),
+                                                                                prm("n", "query", "int")], "Item"),
+                               ctrl="AdminCtl")
+    proj_b = two_package_project()
+    flags_a = {"routesConfig": {"templateOverrides": {"Routes": "./routes.custom.{engine}.hbs"},
+                                "templateExtensions": {"RegisterRoutesExtension": "./ext.register.hbs"}}}
+
+    def prepare(h, k, root):
+        if k != 0:
+            return
+        with open(os.path.join(root, "ext.register.hbs"), "w") as f:
+            f.write(MARK_EXTENSION + "\n")
+        for e in ENGINES:
+            with open(os.path.join(root, "routes.custom.%s.hbs" % e), "w") as f:
+                f.write(override_template(e))
+            d = os.path.join(root, "routes_" + e)
+            os.makedirs(d, exist_ok=True)
+            with open(os.path.join(d, "hooks.go"), "w") as f:      # hand-written code next to the generated file
+                f.write("package routes%s\n\nfunc verifOverrideMarker() {}\n\nfunc verifExtensionMarker() {}\n" % e)
+
+    h = servers.build_servers(PROP + "_inproc", [proj_a, proj_b], flags=[flags_a, None], prepare=prepare)
+    out = {"timings": dict(h.timings), "jobs": 0, "identical": 0, "problems": []}
+    try:
+        cli = {}
+        for k in (0, 1):
+            for e in ENGINES:
+                g = h.generation[k][e]
+                src = h.routes_source(k, e)
+                cli[(k, e)] = src
+                if g["exit"] != 0 or src is None or h.compiles[k][e] is not True:
+                    out["problems"].append({"stage": "cli", "project": "AB"[k], "engine": e, "exit": g["exit"],
+                                            "compiles": str(h.compiles[k][e])[:400], "output": g["out"][-600:]})
+                elif k == 0 and (MARK_OVERRIDE not in src or MARK_EXTENSION not in src):
+                    out["problems"].append({"stage": "cli", "project": "A", "engine": e,
+                                            "note": "the Routes override / extension is not reflected in the CLI's output"})
+        jobs, meta = [], []
+        for i, e in enumerate(ENGINES):
+            order = [0, 1, 0] if i % 2 == 0 else [1, 0, 1]
+            for k in order:
+                jobs.append({"dir": h.root(k), "config": "gleece-%s.json" % e,
+                             "output": os.path.join("routes_" + e, "routes.go")})
+                meta.append((k, e))
+        t0 = time.time()
+        results = implrun("genroutes", jobs, timeout=900)
+        out["timings"]["inprocess_s"] = round(time.time() - t0, 2)
+        out["jobs"] = len(jobs)
+        import base64
+        for n, ((k, e), r) in enumerate(zip(meta, results)):
+            got = base64.b64decode(r["content_b64"]).decode("utf-8", errors="replace") if r["written"] else None
+            if r["error"] or r["panic"] or got is None:
+                out["problems"].append({"stage": "in-process", "job": n, "project": "AB"[k], "engine": e,
+                                        "error": r["error"], "panic": r["panic"], "written": r["written"]})
+                continue
+            if got == cli[(k, e)]:
+                out["identical"] += 1
+                continue
+            import difflib
+            diff = list(difflib.unified_diff((cli[(k, e)] or "").splitlines(), got.splitlines(), "fresh-process",
+                                             "same-process", lineterm="", n=1))
+            # does the file the shared process produced still compile next to the user's packages?
+            path = h.routes_path(k, e)
+            with open(path, "w") as f:
+                f.write(got)
+            pb = run(["go", "build", "./p%d/routes_%s" % (k, e)], cwd=h.mod, env=GOENV, check=False, timeout=600)
+            with open(path, "w") as f:
+                f.write(cli[(k, e)] or "")
+            out["problems"].append({
+                "stage": "in-process", "job": n, "project": "AB"[k], "engine": e,
+                "jobs_before": ["%s/%s" % ("AB"[a], b) for (a, b) in meta[:n]],
+                "diff": diff[:40], "compiles": pb.returncode == 0,
+                "compiler": pb.stderr.decode(errors="replace")[-600:]})
+    finally:
+        h.cleanup()
+    for pr in out["problems"][:2]:
+        if pr["stage"] == "cli":
+            res.violation({"kind": "property-fails-on-implementation", "leg": "in-process double generation (CLI half)",
+                           "input": {"project": proj_a if pr["project"] == "A" else proj_b,
+                                     "flags": flags_a if pr["project"] == "A" else {}}, "detail": pr,
+                           "claim": "an accepted project (with a Routes template override and a template extension) "
+                                    "yields a compilable routes file"})
+        else:
+            res.violation({"kind": "property-fails-on-implementation", "leg": "in-process double generation",
+                           "input": {"project_A": proj_a, "flags_A": flags_a, "project_B": proj_b,
+                                     "sequence": pr.get("jobs_before", []) + ["%s/%s" % (pr["project"], pr["engine"])],
+                                     "replay": "implrun genroutes over these jobs in one process (pygen/c09.py inprocess_leg)"},
+                           "detail": pr,
+                           "claim": "the routes file is a function of project and configuration: a generation must not "
+                                    "depend on generations that ran earlier in the same process, and must compile"})
+    return out
+
+
 # ------------------------------------------------------------------ main
 
 def main():
@@ -378,7 +523,7 @@ def main():
         for (label, p, exp) in deliberate_projects():
             instances.append((label, p, {}, exp))
         n = 5 if a.tier == "quick" else 40
-        opts = {"security": True, "params": True, "multipkg": True, "multifile": True}
+        opts = {"security": True, "params": True, "multipkg": True, "multifile": True, "enums": True}
         for _ in range(n):
             p = mutate_types(rng, P.gen_project(rng, opts))
             combos = [ALL_COMBOS[0]] + rng.sample(ALL_COMBOS[1:], 2 if a.tier == "quick" else 3)
@@ -467,7 +612,7 @@ def main():
         if key in reported or len(reported) >= 4:
             continue
         reported.add(key)
-        if c["gen_ok"] and c["label"] in ("random", "corpus", "replay", "coverage") and len(reported) <= 2:
+        if c["gen_ok"] and c["expect"] is None and len(reported) <= 2:
             c = dict(c, project=shrink_failing(c))
         claim = "prop_C09: generation exit 0 => file parses, is gofmt-clean, declares the configured package, its " \
                 "import aliases are valid, unique and used, and it compiles; exit != 0 => no file written"
@@ -490,6 +635,8 @@ def main():
                                     note="probe %s was expected to be rejected by gleece; the no-file-on-failure "
                                          "half of C09 is not exercised" % c["label"]), no_input=True)
             break
+
+    inproc = {"skipped": "replay"} if a.replay else inprocess_leg(res, a.tier)
 
     files_ok = [c for c in cases if c["gen_ok"] and c["file"] and c["file"]["parse_ok"] and c["file"]["compiles"]]
     distinct = set(json.dumps([c["project"], c["flags"], c["engine"]], sort_keys=True) for c in files_ok
@@ -525,6 +672,8 @@ def main():
             "routes": sum(len(cc["methods"]) for it in instances for cc in it[1]["controllers"]),
         },
         "timings": timings,
+        "inprocess_double_generation": {k: v for k, v in inproc.items() if k != "problems"},
+        "inprocess_problems": len(inproc.get("problems", [])),
     })
     res.assumptions += [
         "the Go parser, go/format and the Go compiler (go build, toolchain go1.24.7) are the oracle for syntax, "
